@@ -366,10 +366,24 @@ class Sim:
         self.npaths = 0
         self.utf8_by_type = False
         self.structural_box = False
+        self.structural_vec = False
         self.statics = {}
         self.adts = {}
         for c in crates:
             for k, v in c.statics.items():
+                if v.get("ptrs"):
+                    # an array of byte-string / str slices: fat pointers (address, length) 16 bytes apart
+                    ty = v.get("ty", "")
+                    raw = v.get("bytes") or []
+                    if ty.startswith("[&") and ("[u8]" in ty or "str" in ty) and all("target_bytes" in q for q in v["ptrs"]):
+                        items = []
+                        for q in sorted(v["ptrs"], key=lambda q: q["off"]):
+                            off = q["off"]
+                            addend = int.from_bytes(bytes(raw[off:off + 8]), "little")
+                            ln = int.from_bytes(bytes(raw[off + 8:off + 16]), "little")
+                            items.append(Bytes(list(q["target_bytes"][addend:addend + ln])))
+                        self.statics[k] = Tup(items)
+                    continue
                 b = v.get("bytes", v.get("target_bytes"))
                 if b is not None:
                     self.statics[k] = Bytes(b, static=k)
@@ -1261,6 +1275,58 @@ class Sim:
 
         return self._inline_multi(fn, env, bb, t, path, depth, next_fn, [itref], after_next)
 
+    def _all_any(self, fn, env, bb, t, path, depth, cont, it, f, next_fn, k, want_all):
+        """Iterator::all / any over a local iterator type: next() and the predicate are evaluated in turn until the
+        predicate decides or the iterator ends (at most 16 items)."""
+        if k > 16 or depth >= self.max_depth:
+            path.end = "stop:iter-limit"
+            return [(env, path, None)]
+        ff = self.find_fn(f.path)
+        if ff is None:
+            return [cont(UNK, path, env)]
+
+        def after_next(rv, sp, e, tr):
+            it2, f2 = tr(it), tr(f)
+            if not isinstance(rv, Adt):
+                return [cont(UNK, sp, e)]
+            if rv.variant == 0:
+                return [cont(1 if want_all else 0, sp, e)]
+            x = rv.fields[0]
+
+            def after_f(r, sp2, e2, tr2):
+                if not isinstance(r, int):
+                    return [cont(UNK, sp2, e2)]
+                if want_all and r == 0:
+                    return [cont(0, sp2, e2)]
+                if not want_all and r == 1:
+                    return [cont(1, sp2, e2)]
+                return self._all_any(fn, e2, bb, t, sp2, depth, cont, tr2(it2), tr2(f2), next_fn, k + 1, want_all)
+
+            cargs = [f2, x] if isinstance(f2, Closure) else [x]
+            return self._inline_multi(fn, e, bb, t, sp, depth, ff, cargs, after_f)
+
+        return self._inline_multi(fn, env, bb, t, path, depth, next_fn, [it], after_next)
+
+    def _all_any_items(self, fn, env, bb, t, path, depth, cont, items, k, f, want_all):
+        """Iterator::all / any over the remaining items of a known array / slice iterator."""
+        if k >= len(items):
+            return [cont(1 if want_all else 0, path, env)]
+        ff = self.find_fn(f.path)
+        if ff is None or depth >= self.max_depth:
+            return [cont(UNK, path, env)]
+
+        def after(rv, sp, e, tr):
+            if not isinstance(rv, int):
+                return [cont(UNK, sp, e)]
+            if want_all and rv == 0:
+                return [cont(0, sp, e)]
+            if not want_all and rv == 1:
+                return [cont(1, sp, e)]
+            return self._all_any_items(fn, e, bb, t, sp, depth, cont, [tr(x) for x in items], k + 1, tr(f), want_all)
+
+        cargs = [f, items[k]] if isinstance(f, Closure) else [items[k]]
+        return self._inline_multi(fn, env, bb, t, path, depth, ff, cargs, after)
+
     def _fold(self, fn, env, bb, t, path, depth, cont, items, k, acc, f):
         """Iterator::fold over the remaining items of a known array / slice iterator."""
         if k >= len(items):
@@ -1337,6 +1403,17 @@ class Sim:
             nf = self._local_next(substs[0]) if substs else None
             if nf is not None:
                 return self._find_map(fn, env, bb, t, path, depth, cont, args[0], f, nf, 0)
+        if p in ("std::iter::Iterator::all", "std::iter::Iterator::any") and isinstance(f, (Closure, FnItem)) \
+                and isinstance(x, Adt) and x.adt == "sim::SliceIter":
+            seq, i = x.fields[0], x.fields[1]
+            elems = list(seq.b if isinstance(seq, Bytes) else seq.fields)[i:]
+            items = [e if len(x.fields) > 2 else Ref([e], 0, ()) for e in elems]
+            return self._all_any_items(fn, env, bb, t, path, depth, cont, items, 0, f, p.endswith("::all"))
+        if p in ("std::iter::Iterator::all", "std::iter::Iterator::any") and isinstance(f, (Closure, FnItem)):
+            substs = t["callee"].get("substs") or []
+            nf = self._local_next(substs[0]) if substs else None
+            if nf is not None:
+                return self._all_any(fn, env, bb, t, path, depth, cont, args[0], f, nf, 0, p.endswith("::all"))
         if p == "std::iter::Iterator::fold" and len(args) == 3 and isinstance(x, Adt) and x.adt == "sim::SliceIter" \
                 and isinstance(args[2], (Closure, FnItem)):
             seq, i = x.fields[0], x.fields[1]
@@ -1427,6 +1504,8 @@ class Sim:
             return any(n in names for n in ns)
 
         rs = c.get("resolved") or ""
+        if self.structural_vec and p in ("std::vec::Vec::<T>::new", "std::vec::Vec::<T>::with_capacity"):
+            return ("value", Adt("sim::Vec", 0, [Tup([])]))
         # a vector with known elements (`sim::Vec`, built by a rule): length, indexing, checked access, iteration
         is_vec = bool(d) and isinstance(d[0], Adt) and d[0].adt == "sim::Vec"
         if is_vec or (d and isinstance(d[0], Tup) and "<impl [T]>::" in p):
@@ -1456,9 +1535,26 @@ class Sim:
                 return ("value", Adt("sim::SliceIter", 0, [tup, 0]))
             if has("std::iter::IntoIterator::into_iter"):
                 return ("value", Adt("sim::SliceIter", 0, [tup, 0, "by-value"]))
+            if is_vec and last == "clear" and len(d) == 1:
+                del items[:]
+                return ("value", Tup([]))
             if is_vec and last == "push" and len(d) == 2:
                 items.append(args[1])
                 return ("value", Tup([]))
+        if (p.endswith("<impl [T]>::starts_with") or p.endswith("<impl [T]>::ends_with")) and len(d) == 2:
+            def as_bytes(v):
+                if isinstance(v, Bytes):
+                    return list(v.b)
+                if isinstance(v, Tup) and all(isinstance(x, int) for x in v.fields):
+                    return list(v.fields)
+                if isinstance(v, Adt) and v.adt == "sim::Vec" and all(isinstance(x, int) for x in v.fields[0].fields):
+                    return list(v.fields[0].fields)
+                return None
+            hay, needle = as_bytes(d[0]), as_bytes(d[1])
+            if hay is not None and needle is not None:
+                if p.endswith("starts_with"):
+                    return ("value", int(hay[:len(needle)] == needle))
+                return ("value", int(len(needle) <= len(hay) and hay[len(hay) - len(needle):] == needle))
         # iteration over a known byte slice / array: `for x in bytes`, `for &x in &[a, b, c]`
         if has("std::iter::IntoIterator::into_iter") and d and isinstance(d[0], (Bytes, Tup)) and \
                 ("IntoIterator for &'a [T]>" in rs or "IntoIterator for &'a [T; N]>" in rs):
@@ -1474,6 +1570,18 @@ class Sim:
             return ("value", Adt("sim::SliceIter", 0, [d[0], 0, "by-value"]))
         if p.endswith("<impl [T]>::iter") and d and isinstance(d[0], Bytes):
             return ("value", Adt("sim::SliceIter", 0, [d[0], 0]))
+        if d and isinstance(d[0], Adt) and d[0].adt == "sim::SliceIter" and self.structural_vec:
+            it = d[0]
+            seq, i = it.fields[0], it.fields[1]
+            rest = list(seq.b if isinstance(seq, Bytes) else seq.fields)[i:]
+            byval = len(it.fields) > 2
+            if has("std::iter::Iterator::cloned", "std::iter::Iterator::copied"):
+                # the elements themselves instead of references to them (values are immutable once built)
+                vals = [self._deref(x, path) for x in rest] if byval else rest
+                return ("value", Adt("sim::SliceIter", 0, [Tup(vals), 0, "by-value"]))
+            if has("std::iter::Iterator::collect") and len(substs) >= 2 and substs[1].startswith("std::vec::Vec<"):
+                vals = rest if byval else [Ref([x], 0, ()) for x in rest]
+                return ("value", Adt("sim::Vec", 0, [Tup(vals)]))
         if has("std::iter::Iterator::next") and d and isinstance(d[0], Adt) and d[0].adt == "sim::SliceIter":
             it = d[0]
             seq, i = it.fields[0], it.fields[1]
